@@ -21,6 +21,7 @@ import MW.Lemmas.RemoveMidCex
 import MW.Lemmas.RemoveInterleave2Ex
 import MW.Lemmas.RemoveInterleave3Ex
 import MW.Lemmas.RemoveInterleave4Ex
+import MW.Lemmas.RemoveInterleave5Ex
 import MW.Lemmas.RemoveJoinEx
 import MW.Lemmas.RemoveFlaggedEx
 import MW.Lemmas.RemoveSimEx
@@ -920,6 +921,38 @@ theorem remove_interleaved_ext {limit : Nat} {c : Ctx} {w : Wid} {addrs : List A
     (hrun : irun limit c w addrs x0 evs = some x) (hfin : x.fin = true) (hws : ∀ y ∈ ws', y ∈ c.wallets) :
     Inv { c with own := own', wallets := ws', node := x.node } x.s x.node.chain :=
   MW.Lemmas.RemoveInterleave.remove_interleaved_ext hP hS hD hrun hfin hws
+
+/-- **remove_interleaved_above.**  The widest positive interleaving theorem: histories inside `DomC` — ANY announced node
+    states (extensions, reorganisations of any depth) before the first removal step; after it, extensions AND
+    REORGANISATIONS THAT FORK ABOVE THE FLOOR, the floor being the follower's tip height when the first removal step ran
+    (only blocks connected after that step are rolled back); unconfirmed transactions and restarts anywhere; any number of
+    removal steps of any size — that end with the finishing step leave C01's invariant for the table without `w`, on the
+    chain the follower was last told about.  The counterexample of `remove_interleaved_projects_literal_false` is outside
+    `DomC` exactly at the floor clause (its reorganisation replaces blocks connected BEFORE the first step).  Proof:
+    everything of `w`'s half of the joined book sits under blocks of height ≤ the flag height ≤ floor, so the ghost store
+    and the real store agree under every block above the floor; `disconnectBlock` on the real store simulates
+    `disconnectBlock` on the ghost (`MW.Lemmas.RemoveSim.disconnectBlock_sim`), the ghost moves by C07's
+    `disconnect_scanJS_above'`, the in-progress invariant is rebuilt for the shorter chain (`midC_shrink`), and C07's
+    abstract reorganisation loops are re-proved with a floor (`MW.Lemmas.ImportReorg.processBlock_reachesIF`). -/
+theorem remove_interleaved_above {limit : Nat} {c : Ctx} {w : Wid} {addrs : List Addr} {own' : Own} {G : Block}
+    {x0 x : ISt} {evs : List IEv} {ws' : List Wid}
+    (hP : Phase1 c w G x0) (hS : Static c w addrs own') (hD : DomC limit c w addrs G none x0 evs)
+    (hrun : irun limit c w addrs x0 evs = some x) (hfin : x.fin = true) (hws : ∀ y ∈ ws', y ∈ c.wallets) :
+    Inv { c with own := own', wallets := ws', node := x.node } x.s x.node.chain :=
+  MW.Lemmas.RemoveInterleave.remove_interleaved_above hP hS hD hrun hfin hws
+
+/-- the rollback half of the simulation, for ARBITRARY stores: disconnecting the tip block on a store `s` that is `g`
+    minus records of script hashes no ready wallet owns, when the records under the tip block agree key by key and its
+    debits spend credits that are not of those script hashes, succeeds whenever it does on `g`, with related results -/
+theorem remove_disconnect_simulation {addrs : List Addr} {c : Ctx} {g s g' : Store} {h : Nat} {bh : BlkId}
+    {txs : List TxId} (hSub : Sub addrs g s) (hng : KeysNodup g.credits) (hns : KeysNodup s.credits)
+    (hh : g.syncedTo = h) (h0 : h ≠ 0) (hrec : AMap.get g.blocks h = some (bh, txs)) (hN : NewEq ⟨h, bh⟩ g s)
+    (hdeb : ∀ id i d cr, AMap.get g.debits ⟨id, ⟨h, bh⟩, i⟩ = some d → AMap.get g.credits d.2 = some cr →
+      addrs.contains cr.sh = false)
+    (hg : disconnectBlock c g h = .ok g') :
+    ∃ s', disconnectBlock c s h = .ok s' ∧ Sub addrs g' s' ∧ NewEq ⟨h, bh⟩ g' s' := by
+  obtain ⟨s', h1, h2, _, _, h3, _⟩ := disconnectBlock_sim hSub hng hns hh h0 hrec hN hdeb hg
+  exact ⟨s', h1, h2, h3⟩
 
 /-- **remove_interleaved_extensions.**  Histories whose block events are all tip EXTENSIONS (domain `DomE`: a delivered
     unconfirmed transaction is not on the followed chain and an id already pending denotes the same transaction; a
